@@ -38,6 +38,7 @@ const (
 	drvPart   = "part.example.com"
 	drvTPart  = "tpart.example.com"
 	capDim    = "mem"
+	capDim2   = "bw"
 	ctrSet    = "cs"
 	ctrName   = "slots"
 )
@@ -74,19 +75,95 @@ type TPartPool struct {
 	Parts []PartDev `json:"parts"`
 }
 
-// SharedDev is a multi-allocatable device; Pre = capacity already consumed by allocations in the cluster
+// CapPolicy is the requestPolicy of one capacity dimension of a multi-allocatable device (resource.k8s.io/v1
+// CapacityRequestPolicy): Def = default (0 = unset: a request without an entry for the dimension consumes the whole
+// capacity), Values = validValues (ascending), Range = a validRange with Min, Max (0 = unset) and Step (0 = unset)
+type CapPolicy struct {
+	Def    int64   `json:"def,omitempty"`
+	Values []int64 `json:"values,omitempty"`
+	Range  bool    `json:"range,omitempty"`
+	Min    int64   `json:"min,omitempty"`
+	Max    int64   `json:"max,omitempty"`
+	Step   int64   `json:"step,omitempty"`
+}
+
+func (p CapPolicy) isZero() bool { return p.Def == 0 && len(p.Values) == 0 && !p.Range }
+
+// SharedDim is a further capacity dimension of a multi-allocatable device
+type SharedDim struct {
+	Cap int64 `json:"cap"`
+	Pre int64 `json:"pre,omitempty"`
+	CapPolicy
+}
+
+// SharedDev is a multi-allocatable device with the capacity dimension mem (Cap, its request policy inline) and
+// optionally a second dimension bw; Pre = capacity already consumed by allocations in the cluster
 // (AllocatedDeviceState.ConsumedCapacity)
 type SharedDev struct {
 	Name string `json:"name"`
 	Cap  int64  `json:"cap"`
 	Pre  int64  `json:"pre,omitempty"`
+	CapPolicy
+	Bw *SharedDim `json:"bw,omitempty"`
 }
 
+func qty(v int64) resource.Quantity { return *resource.NewQuantity(v, resource.DecimalSI) }
+
+func deviceCapacity(cap int64, p CapPolicy) resourcev1.DeviceCapacity {
+	dc := resourcev1.DeviceCapacity{Value: qty(cap)}
+	if p.isZero() {
+		return dc
+	}
+	dc.RequestPolicy = &resourcev1.CapacityRequestPolicy{}
+	if p.Def != 0 {
+		dc.RequestPolicy.Default = ptr.To(qty(p.Def))
+	}
+	for _, v := range p.Values {
+		dc.RequestPolicy.ValidValues = append(dc.RequestPolicy.ValidValues, qty(v))
+	}
+	if p.Range {
+		dc.RequestPolicy.ValidRange = &resourcev1.CapacityRequestPolicyRange{Min: ptr.To(qty(p.Min))}
+		if p.Max != 0 {
+			dc.RequestPolicy.ValidRange.Max = ptr.To(qty(p.Max))
+		}
+		if p.Step != 0 {
+			dc.RequestPolicy.ValidRange.Step = ptr.To(qty(p.Step))
+		}
+	}
+	return dc
+}
+
+// sharedDevice is the ResourceSlice device of a SharedDev
+func sharedDevice(d SharedDev) resourcev1.Device {
+	dev := resourcev1.Device{Name: d.Name, AllowMultipleAllocations: ptr.To(true),
+		Capacity: map[resourcev1.QualifiedName]resourcev1.DeviceCapacity{capDim: deviceCapacity(d.Cap, d.CapPolicy)}}
+	if d.Bw != nil {
+		dev.Capacity[capDim2] = deviceCapacity(d.Bw.Cap, d.Bw.CapPolicy)
+	}
+	return dev
+}
+
+// sharedPreConsumed: what allocations in the cluster already consume of the device, per dimension
+func sharedPreConsumed(d SharedDev) map[resourcev1.QualifiedName]resource.Quantity {
+	m := map[resourcev1.QualifiedName]resource.Quantity{}
+	if d.Pre > 0 {
+		m[capDim] = qty(d.Pre)
+	}
+	if d.Bw != nil && d.Bw.Pre > 0 {
+		m[capDim2] = qty(d.Bw.Pre)
+	}
+	return m
+}
+
+// AClaim: for class shared, Cap / Bw are the capacity requests for the dimensions mem / bw; 0 = the request has no entry
+// for that dimension (both 0: spec.devices.requests[].exactly.capacity is left unset) — the dimension is then consumed
+// at its requestPolicy.default, or in full
 type AClaim struct {
 	Name  string `json:"name"`
 	Class string `json:"class"` // gpu (exclusive in-cluster) | tmpl (template devices of the instance type) | shared (multi-allocatable, consumes Cap) | part (exclusive, consumes shared counters) | tpart (template partition, consumes the template counter of its instance type)
 	Count int64  `json:"count"`
 	Cap   int64  `json:"cap"`
+	Bw    int64  `json:"bw,omitempty"`
 }
 
 type AllocOp struct {
@@ -130,6 +207,18 @@ type MetaEntry struct {
 	Driver   string `json:"driver"`
 	Template bool   `json:"template"`
 	Consumed int64  `json:"consumed"` // consumed capacity (dimension mem) reported for a multi-allocatable device, 0 otherwise
+	ConsumedBw int64 `json:"consumedBw,omitempty"` // likewise for the dimension bw
+}
+
+func metaEntry(claim string, nc, it string, d dra.DeviceAllocationResult) MetaEntry {
+	e := MetaEntry{Claim: claim, NC: nc, IT: it, Dev: d.DeviceID.Device.Value(), Pool: d.DeviceID.Pool.Value(), Driver: d.DeviceID.Driver.Value(), Template: d.DeviceID.Template}
+	if q, ok := d.ConsumedCapacity[capDim]; ok {
+		e.Consumed = q.Value()
+	}
+	if q, ok := d.ConsumedCapacity[capDim2]; ok {
+		e.ConsumedBw = q.Value()
+	}
+	return e
 }
 
 type AllocStep struct {
@@ -138,6 +227,7 @@ type AllocStep struct {
 	Meta     []MetaEntry      `json:"meta"`     // the whole ResourceClaimAllocationMetadata after the op
 	Tracker  DraSnap          `json:"tracker"`  // the tracker's exclusive-device maps (Allocated left empty)
 	Inflight map[string]int64 `json:"inflight"` // tracker.InflightConsumedCapacity[shared device][mem]
+	InflightBw map[string]int64 `json:"inflightBw,omitempty"` // tracker.InflightConsumedCapacity[shared device][bw]
 	Counters map[string]int64 `json:"counters"` // tracker.RemainingCounters[pool][cs][slots] of every partitionable pool it tracks
 }
 
@@ -285,8 +375,14 @@ func deviceClass(name, driver string) *resourcev1.DeviceClass {
 
 func toClaim(c AClaim) *resourcev1.ResourceClaim {
 	req := resourcev1.DeviceRequest{Name: "req", Exactly: &resourcev1.ExactDeviceRequest{DeviceClassName: c.Class, Count: c.Count}}
-	if c.Class == "shared" {
-		req.Exactly.Capacity = &resourcev1.CapacityRequirements{Requests: map[resourcev1.QualifiedName]resource.Quantity{capDim: *resource.NewQuantity(c.Cap, resource.DecimalSI)}}
+	if c.Class == "shared" && (c.Cap != 0 || c.Bw != 0) {
+		req.Exactly.Capacity = &resourcev1.CapacityRequirements{Requests: map[resourcev1.QualifiedName]resource.Quantity{}}
+		if c.Cap != 0 {
+			req.Exactly.Capacity.Requests[capDim] = qty(c.Cap)
+		}
+		if c.Bw != 0 {
+			req.Exactly.Capacity.Requests[capDim2] = qty(c.Bw)
+		}
 	}
 	return &resourcev1.ResourceClaim{ObjectMeta: metav1.ObjectMeta{Name: c.Name, Namespace: "default", UID: "rc-x"},
 		Spec: resourcev1.ResourceClaimSpec{Devices: resourcev1.DeviceClaim{Requests: []resourcev1.DeviceRequest{req}}}}
@@ -316,8 +412,7 @@ func implAlloc(raw json.RawMessage) (any, error) {
 		s := &resourcev1.ResourceSlice{ObjectMeta: metav1.ObjectMeta{Name: "s-shared"}, Spec: resourcev1.ResourceSliceSpec{Driver: drvShared,
 			Pool: resourcev1.ResourcePool{Name: "pool-b", Generation: 1, ResourceSliceCount: 1}, AllNodes: ptr.To(true)}}
 		for _, d := range in.Shared {
-			s.Spec.Devices = append(s.Spec.Devices, resourcev1.Device{Name: d.Name, AllowMultipleAllocations: ptr.To(true),
-				Capacity: map[resourcev1.QualifiedName]resourcev1.DeviceCapacity{capDim: {Value: *resource.NewQuantity(d.Cap, resource.DecimalSI)}}})
+			s.Spec.Devices = append(s.Spec.Devices, sharedDevice(d))
 		}
 		slices = append(slices, dra.NewAPIServerSlice(s))
 	}
@@ -377,9 +472,8 @@ func implAlloc(raw json.RawMessage) (any, error) {
 	}
 	consumed := map[cloudprovider.DeviceID]map[resourcev1.QualifiedName]resource.Quantity{}
 	for _, d := range in.Shared {
-		if d.Pre > 0 {
-			consumed[cloudprovider.DeviceID{Driver: unique.Make(drvShared), Pool: unique.Make("pool-b"), Device: unique.Make(d.Name)}] =
-				map[resourcev1.QualifiedName]resource.Quantity{capDim: *resource.NewQuantity(d.Pre, resource.DecimalSI)}
+		if pc := sharedPreConsumed(d); len(pc) > 0 {
+			consumed[cloudprovider.DeviceID{Driver: unique.Make(drvShared), Pool: unique.Make("pool-b"), Device: unique.Make(d.Name)}] = pc
 		}
 	}
 	al := dra.NewAllocator(slices, dra.AllocatedDeviceState{ExclusiveDevices: pre, ConsumedCapacity: consumed}, nil, kube, nil)
@@ -393,11 +487,7 @@ func implAlloc(raw json.RawMessage) (any, error) {
 		for cid, meta := range al.ResourceClaimAllocationMetadata() {
 			for it, devs := range meta.Devices {
 				for _, d := range devs {
-					e := MetaEntry{Claim: cid.Value().Name, NC: meta.NodeClaimID.Value(), IT: it.Value(), Dev: d.DeviceID.Device.Value(), Pool: d.DeviceID.Pool.Value(), Driver: d.DeviceID.Driver.Value(), Template: d.DeviceID.Template}
-					if q, ok := d.ConsumedCapacity[capDim]; ok {
-						e.Consumed = q.Value()
-					}
-					st.Meta = append(st.Meta, e)
+					st.Meta = append(st.Meta, metaEntry(cid.Value().Name, meta.NodeClaimID.Value(), it.Value(), d))
 				}
 			}
 		}
@@ -411,6 +501,12 @@ func implAlloc(raw json.RawMessage) (any, error) {
 		for id, dims := range at.InflightConsumedCapacity {
 			if q, ok := dims[capDim]; ok {
 				st.Inflight[id.Device.Value()] = q.Value()
+			}
+			if q, ok := dims[capDim2]; ok {
+				if st.InflightBw == nil {
+					st.InflightBw = map[string]int64{}
+				}
+				st.InflightBw[id.Device.Value()] = q.Value()
 			}
 		}
 		st.Counters = map[string]int64{}
@@ -529,6 +625,148 @@ func slotsFor(r *rand.Rand, used int64, parts []PartDev) int64 {
 	return max(used, int64(2+r.IntN(5))) + int64(r.IntN(2))
 }
 
+// sharedLabels: the distribution of multi-allocatable devices and of the claims against them (claims = the claims of the
+// input, granted = names of the claims that hold a share of a multi-allocatable device in the end / at some point)
+func sharedLabels(add func(string), shared []SharedDev, claims []AClaim, granted map[string]bool) {
+	polKind := func(p CapPolicy) string {
+		switch {
+		case p.Range && p.Step != 0 && p.Max != 0:
+			return "range+step+max"
+		case p.Range && p.Step != 0:
+			return "range+step"
+		case p.Range && p.Max != 0:
+			return "range+max"
+		case p.Range:
+			return "range"
+		case len(p.Values) > 0:
+			return "valid-values"
+		case p.Def != 0:
+			return "default-only"
+		}
+		return "none"
+	}
+	for _, d := range shared {
+		add("shared-device-policy:" + polKind(d.CapPolicy))
+		if d.Bw != nil {
+			add("shared-device-second-dimension-policy:" + polKind(d.Bw.CapPolicy))
+		}
+	}
+	for _, c := range claims {
+		if c.Class != "shared" {
+			continue
+		}
+		k := "shared-claim:"
+		switch {
+		case c.Cap == 0 && c.Bw == 0:
+			k += "no-capacity-request"
+		case c.Cap == 0:
+			k += "second-dimension-only"
+		case c.Bw == 0:
+			k += "first-dimension-only"
+		default:
+			k += "both-dimensions"
+		}
+		if c.Count > 1 {
+			add("shared-claim-count-2")
+		}
+		if granted[c.Name] {
+			k += ":granted"
+		} else {
+			k += ":not-granted"
+		}
+		add(k)
+	}
+}
+
+// genCapPolicy: an API-valid request policy for a dimension of capacity cap (≥ 2): none (a request without an entry
+// consumes the whole capacity), a default only, validValues with the default among them, or a validRange (min a multiple
+// of step, max and default on the step grid, all within the capacity)
+func genCapPolicy(r *rand.Rand, cap int64) CapPolicy {
+	switch r.IntN(7) {
+	case 0, 1:
+		return CapPolicy{}
+	case 2, 3:
+		return CapPolicy{Def: 1 + r.Int64N(cap)}
+	case 4:
+		var vals []int64
+		for v := int64(1); v <= cap; v++ {
+			if r.IntN(3) == 0 {
+				vals = append(vals, v)
+			}
+		}
+		if len(vals) == 0 {
+			vals = []int64{1 + r.Int64N(cap)}
+		}
+		return CapPolicy{Values: vals, Def: pick(r, vals)}
+	default:
+		step := int64(1 + r.IntN(2))
+		p := CapPolicy{Range: true, Min: step * r.Int64N(2)}
+		if p.Min+step > cap {
+			step, p.Min = 1, 1
+		}
+		n := (cap - p.Min) / step // grid points above min
+		top := p.Min + step*n
+		if r.IntN(2) == 0 {
+			p.Max = p.Min + step*(1+r.Int64N(n)) // ≥ min+step, ≤ cap
+			top = p.Max
+		}
+		if r.IntN(2) == 0 {
+			p.Step = step
+		}
+		p.Def = p.Min + step*r.Int64N((top-p.Min)/step+1)
+		if p.Def == 0 {
+			p.Def = p.Min + step
+		}
+		return p
+	}
+}
+
+// genSharedDev: a multi-allocatable device of 2..maxCap units of mem, in a third of the cases partly (up to fully)
+// consumed in the cluster already; mostly with a request policy; sometimes with a second dimension bw
+func genSharedDev(r *rand.Rand, name string, maxCap int) SharedDev {
+	d := SharedDev{Name: name, Cap: int64(2 + r.IntN(maxCap-1))}
+	if r.IntN(3) == 0 {
+		d.Pre = int64(1 + r.IntN(int(d.Cap)))
+	}
+	if r.IntN(3) != 0 {
+		d.CapPolicy = genCapPolicy(r, d.Cap)
+	}
+	if r.IntN(4) == 0 {
+		bw := &SharedDim{Cap: int64(2 + r.IntN(5))}
+		if r.IntN(4) == 0 {
+			bw.Pre = int64(1 + r.IntN(int(bw.Cap)))
+		}
+		if r.IntN(4) != 0 {
+			bw.CapPolicy = genCapPolicy(r, bw.Cap)
+		}
+		d.Bw = bw
+	}
+	return d
+}
+
+// genSharedClaim fills the capacity requests of a claim for a multi-allocatable device: in a third of the cases none at
+// all (the claim then consumes every dimension at its default, or in full), otherwise 1..4 of mem (sometimes more than
+// any device has); bw is requested now and then — also when no device has that dimension
+func genSharedClaim(r *rand.Rand, c *AClaim, shared []SharedDev) {
+	c.Class = "shared"
+	if r.IntN(3) != 0 {
+		c.Cap = int64(1 + r.IntN(4))
+		if r.IntN(10) == 0 {
+			c.Cap = int64(5 + r.IntN(5))
+		}
+	}
+	hasBw := false
+	for _, d := range shared {
+		hasBw = hasBw || d.Bw != nil
+	}
+	if (hasBw && r.IntN(3) == 0) || r.IntN(25) == 0 {
+		c.Bw = int64(1 + r.IntN(3))
+	}
+	if len(shared) > 1 && r.IntN(10) == 0 {
+		c.Count = 2
+	}
+}
+
 func genAlloc(r *rand.Rand, t core.Tier) any {
 	in := AllocIn{Excl: []string{}, Shared: []SharedDev{}, Prealloc: []string{}, Parts: []PartDev{}, Tmpl: map[string][]string{}, NCs: []NCSpec{}, Ops: []AllocOp{}}
 	for i := 0; i < 1+r.IntN(5); i++ {
@@ -538,12 +776,8 @@ func genAlloc(r *rand.Rand, t core.Tier) any {
 		}
 	}
 	for i := 0; i < r.IntN(3); i++ {
-		d := SharedDev{Name: fmt.Sprintf("mig-%d", i), Cap: int64(2 + r.IntN(7))}
-		if r.IntN(3) == 0 {
-			// part of the capacity (sometimes all of it) is consumed by allocations in the cluster
-			d.Pre = int64(1 + r.IntN(int(d.Cap)))
-		}
-		in.Shared = append(in.Shared, d)
+		// part of the capacity (sometimes all of it) is consumed by allocations in the cluster
+		in.Shared = append(in.Shared, genSharedDev(r, fmt.Sprintf("mig-%d", i), 8))
 	}
 	partPre := func(parts []PartDev) int64 {
 		var used int64
@@ -709,8 +943,7 @@ func genAlloc(r *rand.Rand, t core.Tier) any {
 					c.Class = "gpu"
 					c.Count = int64(1 + r.IntN(2))
 				case x < 8 && len(in.Shared) > 0:
-					c.Class = "shared"
-					c.Cap = int64(1 + r.IntN(4))
+					genSharedClaim(r, &c, in.Shared)
 				case len(in.Tmpl) > 0:
 					c.Class = "tmpl"
 				default:
@@ -850,6 +1083,30 @@ func opAlloc() *core.Op {
 				} else if n.Zone != "" || n.Rack != "" {
 					add("in-flight-claim-with-zone-or-rack")
 				}
+			}
+			{
+				var claims []AClaim
+				known := map[string]bool{}
+				for _, op := range in.Ops {
+					for _, c := range op.Claims {
+						if !known[c.Name] {
+							known[c.Name] = true
+							claims = append(claims, c)
+						}
+					}
+				}
+				granted := map[string]bool{}
+				for _, s := range steps {
+					sm, _ := s.(map[string]any)
+					meta, _ := sm["meta"].([]any)
+					for _, e := range meta {
+						em, _ := e.(map[string]any)
+						if fmt.Sprint(em["driver"]) == drvShared {
+							granted[fmt.Sprint(em["claim"])] = true
+						}
+					}
+				}
+				sharedLabels(add, in.Shared, claims, granted)
 			}
 			for i, s := range steps {
 				if i >= len(in.Ops) {
